@@ -246,6 +246,7 @@ class RealTunnel:
             raise
         self.smux.got_dns_req = None
         self.smux.got_udp_open = None
+        self.real_got_host_req = self.smux.got_host_req      # kept for checks that drive the host-watch path
         self.smux.got_host_req = lambda data: None
         self.ready = ([], [], [])
 
